@@ -20,7 +20,7 @@ from ..oracles import sigmodel as sm
 PID = "C06"
 LEVEL = "exploration"
 RULE = ("full product of operation sequences (depth<=2 quick / 3 thorough, 4 for the plain FunctionSignal) over the "
-        "15-operation signal alphabet x all read masks, on 7 kinds of function-backed signals (plain 1- and 2-component, "
+        "18-operation signal alphabet x all read masks, on 7 kinds of function-backed signals (plain 1- and 2-component, "
         "ZHS/AVZ/ARZ Askaryan, FFT/Full thermal noise under OwnedRandom); and of attribute-assignment sequences "
         "(depth<=2/3) x read masks on Specialized/Basic/Uniform/Layered tracers and their paths; distinct_nontrivial = "
         "distinct (kind, op sequence, mask) with at least one read before a mutation")
@@ -38,7 +38,9 @@ FUNCS["scalar_only"] = sm.scalar_only_factory(DT)
 FILTERS = sm.make_filters(DT)
 
 SIG_OPS = ["shift+3", "shift-5", "imul2", "idiv4", "filt_delay2", "filt_lowpass", "buf_lead4", "buf_trail3_force",
-           "buf_zero_force", "resample17", "times_assign", "with_times_sub", "with_times_super", "add_late", "copy"]
+           "buf_zero_force", "resample17", "times_assign", "with_times_sub", "with_times_super", "add_late", "copy",
+           # derive a child, mutate the child, keep going on the parent (no-ops on the parent if nothing is shared)
+           "child_with_times_sub", "child_copy_filter", "child_sum_filter_buf"]
 SIG_KINDS = ["plain_early", "plain_two", "zhs", "avz", "arz", "fftnoise", "fullnoise"]
 
 
@@ -163,13 +165,29 @@ def _apply_sig(obj, mod, op):
         obj = obj.copy()
         if mod:
             mod = mod.copy()
+    elif op == "child_with_times_sub":
+        child = obj.with_times(np.array(obj.times)[2:-1].copy())
+        child.set_buffers(trailing=2 * dt)
+    elif op == "child_copy_filter":
+        child = obj.copy()
+        child.filter_frequencies(FILTERS["lowpass"][0], force_real=True)
+        child *= 3.0
+        child.shift(2 * dt)
+    elif op == "child_sum_filter_buf":
+        child = FunctionSignal(np.array(obj.times), FUNCS["late"]) + obj
+        child.filter_frequencies(FILTERS["delay2"][0], force_real=True)
+        child.set_buffers(leading=3 * dt)
+        child2 = 2.0 * obj
+        child2.set_buffers(leading=5 * dt, force=True)
     else:
         raise ValueError(op)
     return obj, mod
 
 
 def _obs_sig(obj):
-    return (np.array(obj.times, dtype=float).copy(), np.array(obj.values, dtype=float).copy(), obj.value_type.value)
+    # the values of a fresh copy are part of the observation: a copy has no cache, so it exposes the definition itself
+    return (np.array(obj.times, dtype=float).copy(), np.array(obj.values, dtype=float).copy(), obj.value_type.value,
+            np.array(obj.copy().values, dtype=float))
 
 
 def _same(a, b, tol=0.0):
